@@ -477,7 +477,7 @@ def dedupe(items):
 
 
 def replay_and_validate(wd, cases, pkg, test, overlay_dirs, trace_module, shared=(), env=None,
-                        go_timeout=900, tlc_timeout=1800, race=False, trace_env=None):
+                        go_timeout=900, tlc_timeout=1800, race=False, trace_env=None, trace_constants=""):
     """cases -> VF_IN ; go harness -> VF_OUT ; Trace spec validation.  Returns (records, validation)."""
     inp = os.path.join(wd, "cases.ndjson")
     with open(inp, "w") as f:
@@ -494,6 +494,6 @@ def replay_and_validate(wd, cases, pkg, test, overlay_dirs, trace_module, shared
     if rc != 0 or "VF replayed=" not in out:
         raise Inconclusive(f"harness {test} failed:\n" + out[-3000:])
     with open(os.path.join(wd, trace_module + ".cfg"), "w") as f:
-        f.write(TRACE_CFG)
+        f.write(trace_constants + TRACE_CFG)
     v = validate_trace(trace_module, trace_module + ".cfg", trace, wd, timeout=tlc_timeout, env=trace_env)
     return read_ndjson(trace), v, out
